@@ -350,6 +350,8 @@ type Analysis struct {
 	// ExtSeen records every external callee encountered and the table entry used ("" = none).
 	ExtSeen map[string]string
 	inScope map[*ssa.Function]bool
+	// OnceInit: function literals run by Do of a package-level sync.Once (no free variables) -> that Once
+	OnceInit map[*ssa.Function]string
 }
 
 func Analyse(cfg Config) *Analysis {
